@@ -78,7 +78,7 @@ def cases(draw):
         _inject_unpicklable(draw, root)
     store = draw(st.sampled_from(["zip", "dir"]))
     mode = draw(st.sampled_from(["w", "o", "o"]))
-    pre = draw(st.sampled_from(["absent", "earlier_save", "earlier_save", "unrelated_file", "unrelated_dir", "earlier_other_kind"]))
+    pre = draw(st.sampled_from(["absent", "earlier_save", "earlier_save", "unrelated_file", "unrelated_dir", "earlier_other_kind"] + (["hardlink_twin", "symlink_to_file"] if store == "zip" else ["symlink_to_dir"])))
     case = {
         "kind": "fault",
         "root": root,
@@ -96,6 +96,8 @@ def cases(draw):
         "exc": draw(st.sampled_from(["cycle", "cycle", "cycle", "cycle"] + EXCS)),
         "off": draw(st.integers(0, 11)),
         "natural": natural,
+        # the process runs with warnings turned into errors (python -W error / pytest -W error)
+        "warn_error": draw(st.integers(0, 3)) == 0,
         "compression": draw(st.sampled_from([None, 0, 4])),
     }
     return case
@@ -266,6 +268,21 @@ class Scenario:
                     self.old.save(tp + ".zip", mode="w", store="zip")
                     os.rename(tp + ".zip", tp)
                     self.old_loadable = True
+            elif pre == "hardlink_twin":
+                # the target is an earlier archive that also has a second name (cp -l snapshot)
+                self.old.save(tp, mode="w", store=store)
+                os.link(tp, os.path.join(self.template, "snapshot_hardlink.zip"))
+                self.old_loadable = True
+            elif pre == "symlink_to_file":
+                real = os.path.join(self.template, "real_archive.zip")
+                self.old.save(real, mode="w", store="zip")
+                os.symlink("real_archive.zip", tp)
+                self.old_loadable = True
+            elif pre == "symlink_to_dir":
+                real = os.path.join(self.template, "real_store")
+                self.old.save(real, mode="w", store="dir")
+                os.symlink("real_store", tp)
+                self.old_loadable = True
             elif pre == "unrelated_file":
                 with open(tp, "wb") as f:
                     f.write(b"unrelated user data\n" * 3)
@@ -314,12 +331,18 @@ class Scenario:
             exc_k, when_k = _exc_when(case, k)
             faults = Faults(fail_at=k, when=when_k, exc=exc_k)
             raised = None
-            with faults.installed():
+            import warnings
+
+            with faults.installed(), warnings.catch_warnings():
+                warnings.simplefilter("error" if case.get("warn_error") else "ignore")
                 try:
                     with contextlib.redirect_stdout(io.StringIO()):
                         self.x.save(os.path.join(work, self.given), mode=case["mode"], store=case["store"], compression_level=case["compression"])
                 except BaseException as e:  # noqa: BLE001 - judged below
                     raised = e
+            warned = case.get("warn_error") and isinstance(raised, Warning) and faults.raised is None
+            if warned:
+                ctx.count("save_failed_because_a_warning_was_an_error")
             tp = os.path.join(work, self.target)
             expect_exists_error = case["mode"] == "w" and self.pre_exists
             natural = case["natural"]
@@ -341,14 +364,14 @@ class Scenario:
             if leaked:
                 raise core.Violation("save() left temporary files behind in %s: %s" % (tempfile.gettempdir(), sorted(leaked)[:3]), kcase)
 
-            failed = faults.raised is not None or natural
+            failed = faults.raised is not None or natural or bool(warned) or (case.get("warn_error") and raised is not None)
             if faults.raised is not None:
                 # (i) the injected exception must propagate (not be swallowed / replaced by success)
                 if raised is None:
                     raise core.Violation("an exception injected at site %d (%s) was swallowed: save() returned normally" % (k, faults.sites[k - 1] if k <= len(faults.sites) else "?"), kcase)
-            elif raised is not None and not natural:
+            elif raised is not None and not natural and not case.get("warn_error"):
                 raise core.Violation("un-faulted save raised %s: %s" % (type(raised).__name__, str(raised)[:200]), kcase)
-            elif natural and raised is None:
+            elif natural and raised is None and not case.get("warn_error"):
                 raise core.Violation("saving a graph with an unserialisable leaf did not raise", kcase)
 
             # (ii) what does the target load to?
